@@ -96,6 +96,45 @@ pub fn run(ctx: &mut Ctx) {
             }
         }
     }
+    // decimal strings with 15-20 significant digits, alone and against a few partners
+    for x in al::decimal_strings() {
+        if !ctx.mine() {
+            continue;
+        }
+        for k in OPS {
+            ctx.edge();
+            ctx.check(&format!("{}:decimal-string:1", k), &op(k, vec![x.clone()]), &null);
+            for y in [json!(0), json!(1), json!("1"), json!(-1), json!(3)] {
+                ctx.check(&format!("{}:decimal-string:2", k), &op(k, vec![x.clone(), y.clone()]), &null);
+                ctx.check(&format!("{}:decimal-string:2", k), &op(k, vec![y.clone(), json!({"var": "s"})]), &json!({"s": x}));
+            }
+        }
+        // the parseFloat side also takes a prefix: digits followed by a unit
+        let xs = x.as_str().unwrap_or("").to_string();
+        ctx.check("+:decimal-string:prefix", &json!({"+": [format!("{}px", xs)]}), &null);
+        ctx.check("*:decimal-string:prefix", &json!({"*": [format!(" {} ", xs), 1]}), &null);
+    }
+    // factor boundaries: products / sums of 2..4 integers that cross 2^53, 2^63, 2^64
+    {
+        let fb = al::factor_boundaries();
+        for n in 2..=4usize {
+            let alpha: Vec<Value> = if n <= 3 { fb.clone() } else { fb.iter().take(8).cloned().collect() };
+            for t in al::tuples(&alpha, n) {
+                if !ctx.mine() {
+                    continue;
+                }
+                for k in VARIADIC {
+                    ctx.edge();
+                    ctx.check(&format!("{}:factor-boundaries:{}", k, n), &op(k, t.clone()), &null);
+                }
+                if n == 2 {
+                    for k in ["-", "/", "%"] {
+                        ctx.check(&format!("{}:factor-boundaries:2", k), &op(k, t.clone()), &null);
+                    }
+                }
+            }
+        }
+    }
     // length 2
     for x in &a {
         for y in &a {
